@@ -1,5 +1,6 @@
 """Verdicts, replay files, known findings, evidence."""
 import glob
+import re
 import hashlib
 import json
 import os
@@ -145,10 +146,11 @@ def run_check(prop, tier, only=None, jobs=None, native=True, proof=True, verbose
     # obligation-count guard against the committed baseline
     missing = []
     if baseline and proof and not only:
-        have = {ob['name'] for r in results for ob in r.get('obligations', [])}
+        norm = lambda nm_: re.sub(r'@L\d+', '@L', nm_)     # source line numbers are not part of an obligation's identity
+        have = {norm(ob['name']) for r in results for ob in r.get('obligations', [])}
         oor = {o['harness'] for o in out_of_reach}
         for nm in baseline.get('discharged', []):
-            if nm not in have:
+            if norm(nm) not in have:
                 h = nm.split('.', 2)
                 if not any(nm.startswith(f"{prop}.{o}.") for o in oor) and not any(nm.startswith(f"{prop}.{e.split(':')[0]}.") for e in errors):
                     missing.append(nm)
